@@ -585,12 +585,12 @@ class Flattener:
         if not lookups:
             return
 
-        guarded: set[str] = set()
+        guarded: dict[str, ast.If] = {}
         for x in ast.walk(node):
             if isinstance(x, ast.If) and isinstance(x.test, ast.Compare) and isinstance(x.test.left, ast.Name) and x.test.left.id in lookups and len(x.test.ops) == 1 \
                     and isinstance(x.test.ops[0], ast.Is) and isinstance(x.test.comparators[0], ast.Constant) and x.test.comparators[0].value is None \
-                    and x.body and isinstance(x.body[-1], (ast.Raise, ast.Return, ast.Continue, ast.Break)):
-                guarded.add(x.test.left.id)  # `if f is None: <leave>` -- a miss never reaches the call
+                    and x.body and isinstance(x.body[-1], (ast.Raise, ast.Return, ast.Continue, ast.Break)) and not x.orelse and x.test.left.id not in guarded:
+                guarded[x.test.left.id] = x  # `if f is None: <leave>` -- a miss never reaches the call
 
         def chain(call: ast.Call, mk) -> ast.stmt:
             disp, owner, key, soft = lookups[call.func.id]
@@ -605,14 +605,15 @@ class Flattener:
                 arms.append((test, mk(c2)))
             orelse: list[ast.stmt] = [ast.Raise(exc=ast.Call(func=ast.Name(id="TypeError", ctx=ast.Load()), args=[ast.Constant(value="'NoneType' object is not callable")], keywords=[]), cause=None)] if soft else [ast.Raise(exc=ast.Call(func=ast.Name(id="KeyError", ctx=ast.Load()), args=[copy.deepcopy(key)], keywords=[]), cause=None)]
             if soft and call.func.id in guarded and arms:
-                # membership was established by the guard: the last arm needs no test of its own
-                orelse = [arms[-1][1]]
-                arms = arms[:-1]
+                # the guard `if f is None: <leave>` becomes the final else of the chain (and is dropped below)
+                orelse = copy.deepcopy(guarded[call.func.id].body)
+                used_guards.add(call.func.id)
             for test, st in reversed(arms):
                 orelse = [ast.If(test=test, body=[st], orelse=orelse)]
             return orelse[0]
 
         changed = False
+        used_guards: set[str] = set()
 
         def rewrite(stmts: list[ast.stmt]) -> list[ast.stmt]:
             nonlocal changed
@@ -644,6 +645,15 @@ class Flattener:
         node.body = rewrite(body)
         if changed:
             self.inlined.append((fi.short, "<table dispatch>"))
+            if used_guards:
+                gone = [guarded[n] for n in used_guards]
+
+                class _G(ast.NodeTransformer):
+                    def visit_If(self_, x):  # noqa: N805
+                        if any(x is g for g in gone):
+                            return ast.copy_location(ast.Pass(), x)
+                        return self_.generic_visit(x)
+                _G().visit(node)
             # a looked-up function that is now only tested against None: test the key instead and drop the lookup
             for fname, (disp, owner, key, soft) in lookups.items():
                 uses = [x for x in ast.walk(node) if isinstance(x, ast.Name) and x.id == fname and isinstance(x.ctx, ast.Load)]
